@@ -369,6 +369,10 @@ func (fr *Frame) execInstr(ins ssa.Instruction, pc string, st *State) string {
 		} else {
 			pc = fr.assume(pc, fmt.Sprintf("(and (<= (- 1) %s) (< %s %d))", ts[0], ts[0], n))
 		}
+		for i := 2; i < len(ts); i++ {
+			pc = fr.assume(pc, vc.typeAssume(ts[i], tup.At(i).Type(), st))
+		}
+		pc = fr.runSites(ins, "select", pc, st, nil)
 	case *ssa.SliceToArrayPointer, *ssa.MultiConvert:
 		vc.note("unsupported conversion abstracted")
 		fr.vals[x.(ssa.Value)] = []string{vc.fresh(fr.prefix+x.(ssa.Value).Name(), d.sortOf(x.(ssa.Value).Type()))}
